@@ -235,6 +235,11 @@ func execC09(r *Run) {
 		cf.MemberlistConfig.GossipVerifyOutgoing = false
 		cf.MemberlistConfig.GossipVerifyIncoming = false
 		cf.EnableNameConflictResolution = true
+		// a leave intent with the prune flag about a live member makes the handler sleep
+		// for seconds with the member lock held; a reap or reconnect tick inside that
+		// window would wait in a real mutex, which stalls the fake clock (DESIGN 10.1)
+		cf.ReapInterval = 1000 * time.Hour
+		cf.ReconnectInterval = 1000 * time.Hour
 	}}
 	if err := c.Start(0, opts); err != nil {
 		r.Fail("setup", "setup", "%v", err)
